@@ -31,6 +31,10 @@ Next ==
 
 Spec == Init /\ [][Next]_vars
 
+(* with histories planted from outside (GitBug!PlantForeign): every invariant still holds *)
+PlantNext == Next \/ \E r \in Replica, m \in Remote : Room(1) /\ PlantForeign(r, m, Rk)
+PlantSpec == Init /\ [][PlantNext]_vars
+
 (* with the leap of a clock (GitBug!ClockLeap): the design's counterexample to AllReadable *)
 LeapNext == Next \/ \E r \in Replica : ClockLeap(r)
 LeapSpec == Init /\ [][LeapNext]_vars
